@@ -499,3 +499,64 @@ def unit_build_run_result() -> Dict[str, Any]:
         raise Undecided(f'{name}: no successful path')
     extra.append(Obl(f'{name}:canary', list(st.pc), None, 'canary'))
     return finish_unit(_Unit(_to_int(list(ex.obligations) + extra)), [])
+
+
+def unit_generic_loop_dispatch(w: int) -> Dict[str, Any]:
+    """run_generic_loop (the dispatch between Memory_run and the loop clones): the loop clone is called with the caller's
+    memory object, callbacks, start ip and out-parameters unchanged, with the object's own (width, ww), and with the ring: with a
+    ring -> (that ring, its length, with_ring = 1); without -> (NULL, 0, with_ring = 0); the clone's cause is returned."""
+    from props.C01c import NativeModel
+
+    name = 'run_generic_loop'
+    ex = _glue_exec(name)
+    ex.name = f'{name}[w{w}]'
+    nm = NativeModel(w)
+    st = nm.st0.fork()
+    ring_null, L, ip = z3.Bool('ring_is_null'), z3.BitVec('ring_len', 64), z3.BitVec('start_ip', 64)
+    st.vars['self'] = Ptr('mem')
+    for v in ('read_bit', 'write_bit', 'eof_exception_type'):
+        st.vars[v] = Ptr('pyobj', v)
+    st.vars['start_ip'] = ip
+    st.vars['ops_out'] = Ptr('u64', ('local', '@ops'))
+    st.vars['paused_seconds_out'] = Ptr('localptr', ('local', '@paused'))
+    st.vars['last_ops_ring'] = Ptr('u64', ('ring', u64(0)), ring_null)
+    st.vars['last_ops_length'] = L
+    st.vars['ring_writes_out'] = Ptr('u64', ('local', '@rw'))
+    cause = z3.BitVec('clone_cause', 32)
+    calls: List[Any] = []
+
+    def is_ptr(p: Any, kind: str, where: Any) -> bool:
+        return isinstance(p, Ptr) and p.kind == kind and p.where == where
+
+    def clone(e, s0, args, node):
+        if len(args) != 13:
+            raise Undecided(f'{name}: run_paged_loop_impl is called with {len(args)} arguments, the contract expects 13')
+        passthrough = (is_ptr(args[0], 'mem', None) and all(is_ptr(a, 'pyobj', v) for a, v in zip(args[1:4], ('read_bit', 'write_bit', 'eof_exception_type')))
+                       and is_ptr(args[5], 'u64', ('local', '@ops')) and is_ptr(args[6], 'localptr', ('local', '@paused')) and is_ptr(args[9], 'u64', ('local', '@rw')))
+        ex.oblige(s0, 'call_loop_clone.object_callbacks_start_ip_and_out_parameters_unchanged', z3.And(z3.BoolVal(passthrough), args[4] == ip))
+        ex.oblige(s0, 'call_loop_clone.width_and_ww_are_the_objects', z3.And(args[10] == z3.ZeroExt(32, s0.M['f:w']) if s0.M['f:w'].size() == 32 else args[10] == s0.M['f:w'],
+                                                                                args[11] == z3.ZeroExt(32, s0.M['f:ww']) if s0.M['f:ww'].size() == 32 else args[11] == s0.M['f:ww']))
+        rp = args[7]
+        with_ring = args[12]
+        if _is_null(rp):
+            ring_ok = z3.And(ring_null, args[8] == 0, with_ring == 0)
+        else:
+            ring_ok = z3.And(z3.Not(ring_null), _same_ring(rp), args[8] == L, with_ring == 1)
+        ex.oblige(s0, 'call_loop_clone.ring_length_and_ring_flag_agree_with_the_callers_ring', ring_ok)
+        calls.append(1)
+        yield (s0, cause)
+
+    ex.contracts['run_paged_loop_impl'] = clone
+    extra: List[Obl] = [Obl(f'{ex.name}:cover.requires', list(st.pc), None, 'cover')]
+    n = 0
+    for i, (s, where) in enumerate(ex.run(st, 0, stop=set())):
+        if where[0] != 'return':
+            raise Undecided(f'{name}: path ended at label {where[1]}')
+        n += 1
+        tag = f'{ex.name}:path{i}'
+        extra.append(Obl(f'{tag}.cover', list(s.pc), None, 'cover'))
+        extra.append(Obl(f'{tag}.returns_the_cause_of_the_clone', list(s.pc), where[1] == cause))
+    if n < 2 or len(calls) < 2:
+        raise Undecided(f'{name}: expected a path with and one without a ring')
+    extra.append(Obl(f'{ex.name}:canary', list(st.pc), None, 'canary'))
+    return finish_unit(_Unit(list(ex.obligations) + extra), [])
